@@ -82,10 +82,10 @@ func startSSC(r *mrand.Rand, s symref.Suite, mode int) []byte {
 func newLibSM(k *fw.K, s symref.Suite, kenc, kmac, ssc []byte) *iso7816.SecureMessaging {
 	sm, err := iso7816.NewSecureMessaging(libAlg(s), append([]byte{}, kenc...), append([]byte{}, kmac...))
 	if err != nil {
-		fw.Bug("NewSecureMessaging(%v): %v", s, err)
+		fw.LibFail("new-secure-messaging-failed", "NewSecureMessaging(%v) with valid keys: %v", s, err)
 	}
 	if err := sm.SetSSC(ssc); err != nil {
-		fw.Bug("SetSSC: %v", err)
+		fw.LibFail("set-ssc-failed", "SetSSC with a counter of the right length: %v", err)
 	}
 	return sm
 }
@@ -115,7 +115,8 @@ var smNes = []int{0, 1, 4, 8, 255, 256, 257, 1000, 65535, 65536}
 
 func genPlainCmd(r *mrand.Rand, allowBig bool) plainCmd {
 	var p plainCmd
-	p.cla = 0x00
+	// class byte as the caller builds it: plain, command chaining (10), proprietary (80)
+	p.cla = []byte{0x00, 0x00, 0x00, 0x10, 0x80, 0x90}[r.IntN(6)]
 	switch r.IntN(6) {
 	case 0: // SELECT EF
 		p.ins, p.p1, p.p2 = 0xA4, 0x02, 0x0C
